@@ -6,7 +6,7 @@ from m5check import run_property
 SEC, MS = m5.SEC, m5.MS
 BEH = ["reply", "reply", "delay:%d" % (500 * MS), "delay:%d" % (1 * SEC - 1), "delay:%d" % (1 * SEC), "delay:%d" % (1 * SEC + 1),
        "delay:%d" % (3 * SEC - 1), "delay:%d" % (3 * SEC), "delay:%d" % (3 * SEC + 1), "delay:%d" % (8 * SEC), "hang", "hang", "upgrade", "upgrade",
-       "upgrade:%d" % (500 * MS), "upgrade:%d" % (2 * SEC)]
+       "upgrade:%d" % (500 * MS), "upgrade:%d" % (2 * SEC), "stream:%d" % (2 * SEC), "stream:%d" % (5 * SEC)]
 PROFILES = [
     {"requests": 2.5, "deploys": 1.5, "pause": 1.2, "rollout": 0.3, "remove": 0, "flap": 0.4, "flap_targets": False, "behaviours": BEH,
      "fail_deploys": 0.1, "yields": 0.8, "initial_all": True, "cooldown": 9 * SEC, "actions": (25, 70), "drain_timeouts": [0, 1, 1 * SEC, 3 * SEC, 3 * SEC],
